@@ -16,6 +16,13 @@ static double _get_ulong(const char* data, size_t pos);
 static double _get_long(const char* data, size_t pos);
 static double _get_float(const char* data, size_t pos);
 static double _get_double(const char* data, size_t pos);
+/* FFF_ROUND goes through `int`: it truncates values beyond 31 bits (which the
+   unsigned int, long and unsigned long types can hold) and its `(int)(a)-1`
+   overflows for large negative values.  Round in double precision and go
+   through a 64-bit integer instead (narrower types then wrap as before). */
+#define _ROUND_DOUBLE(a) (floor((a)+0.5))
+#define _ROUND_INT64(a) ((long long int)_ROUND_DOUBLE(a))
+
 static void _set_uchar(char* data, size_t pos, double value);
 static void _set_schar(char* data, size_t pos, double value);
 static void _set_ushort(char* data, size_t pos, double value);
@@ -833,47 +840,42 @@ static double _get_double(const char* data, size_t pos)
 static void _set_uchar(char* data, size_t pos, double value)
 {
   unsigned char* buf = (unsigned char*)data;
-  buf[pos] = (unsigned char)(FFF_ROUND(value));
+  buf[pos] = (unsigned char)(_ROUND_INT64(value));
   return;
 }
 
 static void _set_schar(char* data, size_t pos, double value)
 {
   signed char* buf = (signed char*)data;
-  buf[pos] = (signed char)(FFF_ROUND(value));
+  buf[pos] = (signed char)(_ROUND_INT64(value));
   return;
 }
 
 static void _set_ushort(char* data, size_t pos, double value)
 {
   unsigned short* buf = (unsigned short*)data;
-  buf[pos] = (unsigned short)(FFF_ROUND(value));
+  buf[pos] = (unsigned short)(_ROUND_INT64(value));
   return;
 }
 
 static void _set_sshort(char* data, size_t pos, double value)
 {
   signed short* buf = (signed short*)data;
-  buf[pos] = (signed short)(FFF_ROUND(value));
+  buf[pos] = (signed short)(_ROUND_INT64(value));
   return;
 }
-
-/* FFF_ROUND goes through `int`: it truncates (and overflows) values beyond
-   31 bits, which the unsigned int, long and unsigned long types can hold.
-   Round these in double precision instead. */
-#define _ROUND_DOUBLE(a) (floor((a)+0.5))
 
 static void _set_uint(char* data, size_t pos, double value)
 {
   unsigned int* buf = (unsigned int*)data;
-  buf[pos] = (unsigned int)(_ROUND_DOUBLE(value));
+  buf[pos] = (unsigned int)(_ROUND_INT64(value));
   return;
 }
 
 static void _set_int(char* data, size_t pos, double value)
 {
   int* buf = (int*)data;
-  buf[pos] = (int)(FFF_ROUND(value));
+  buf[pos] = (int)(_ROUND_INT64(value));
   return;
 }
 
@@ -887,7 +889,7 @@ static void _set_ulong(char* data, size_t pos, double value)
 static void _set_long(char* data, size_t pos, double value)
 {
   long int* buf = (long int*)data;
-  buf[pos] = (long int)(_ROUND_DOUBLE(value));
+  buf[pos] = (long int)(_ROUND_INT64(value));
   return;
 }
 
